@@ -982,7 +982,7 @@ func runHist(t *testing.T, seed int64, n int, out *Out) {
 					}
 				}
 			}
-			if faults && h.r.Intn(18) == 0 {
+			if (faults || os.Getenv("VERIF_GENTRIP") != "") && h.r.Intn(18) == 0 {
 				// a restart from an exported genesis, for one module: ExportGenesis followed by InitGenesis of exactly that export on the
 				// live state. Every ledger must come through it, and what is opened or created afterwards must not collide with what
 				// was imported (id counters).
